@@ -391,11 +391,30 @@ def _rounded_to_smaller(
     """# Comparison operands: both values, in units of the smaller one's prefix, rounded to `EPSILON` places.
     Computed on exact rationals, so that comparisons neither lose precision nor fail,
     however many orders of magnitude separate the two values."""
-    other = to_prefixed(other)
+    try:
+        other = to_prefixed(other)
+    except Exception:
+        # Not a number, nor convertible to one: not comparable.
+        # Equality tests are then False, and ordering-comparisons raise a `TypeError`.
+        return _NotComparable, None
     lhs, rhs = me.exact(), other.exact()
     smaller = me.prefix if lhs < rhs else other.prefix
     unit = Fraction(10) ** smaller.value
     return round(lhs / unit, EPSILON), round(rhs / unit, EPSILON)
+
+
+class _NotComparableType:
+    """Stand-in for the left-hand operand when a comparison's right-hand side is not a number.
+    Returns `NotImplemented` from all comparisons, deferring to Python's defaults."""
+
+    def _no(self, _other):
+        return NotImplemented
+
+    __lt__ = __le__ = __eq__ = __ne__ = __gt__ = __ge__ = _no
+    __hash__ = None
+
+
+_NotComparable = _NotComparableType()
 
 
 def _scale_to_smaller(
